@@ -23,6 +23,7 @@ import (
 	"sync"
 	"text/template"
 	"time"
+	"unicode"
 )
 
 type (
@@ -722,7 +723,9 @@ func (f *HashFile) UnmarshalText(b []byte) error {
 			return ErrChecksumFormat
 		}
 		li := []string{sc.Text()[:i], sc.Text()[i+3:]}
-		*f = append(*f, struct{ N, H string }{strings.TrimSpace(li[0]), li[1]})
+		// Strip the separator between the file name and its hash, but
+		// keep leading spaces as they are part of the file name.
+		*f = append(*f, struct{ N, H string }{strings.TrimRightFunc(li[0], unicode.IsSpace), li[1]})
 	}
 	if sum != f.Sum() {
 		return ErrChecksumMismatch
